@@ -286,8 +286,8 @@ Section rec.
                 (* several candidates: an explicit tag may pick one *)
                 match class_of_tag reg (ntag n) with
                 | Some kt => if ty_mem (TClass (c_name kt)) found then Ok ([TClass (c_name kt)], rec_ok)
-                             else Ok (found, RE [] [] causes)
-                | None => Ok (found, RE [] [] causes)
+                             else Ok (found, RE [nmark n] [] causes)
+                | None => Ok (found, RE [nmark n] [] causes)
                 end
             end
         end
